@@ -411,8 +411,8 @@ Proof.
 Qed.
 
 (* the outcome-level functions return exactly these values on non-empty data *)
-Lemma t_norm_ok q blas (w : @tweight R) p (x : Rvec) : x <> [] -> t_norm q blas w p x = Ok (t_norm_v w p x).
-Proof. destruct x; [congruence|reflexivity]. Qed.
+Lemma t_norm_ok (w : @tweight R) p (x : Rvec) : t_norm w p x = Ok (t_norm_v w p x).
+Proof. reflexivity. Qed.
 Lemma t_inner_ok (w : @tweight R) (x y : Rvec) : t_inner w (PFin 2) x y = Ok (t_inner_v w x y).
 Proof. reflexivity. Qed.
 Lemma t_inner_notimpl (w : @tweight R) p (x y : Rvec) : is2 p = false -> t_inner w p x y = NotImpl.
@@ -421,9 +421,8 @@ Proof. unfold t_inner. intros ->. reflexivity. Qed.
 (* dist: the duplicated formulas of ConstWeighting.dist are norm(x - y) *)
 Theorem t_dist_v_norm (w : @tweight R) p (x y : Rvec) : t_dist_v w p x y = t_norm_v w p (vsub x y).
 Proof. destruct w as [c|a]; [|reflexivity]. destruct p as [|[|[|[|p]]]]; reflexivity. Qed.
-Lemma t_dist_ok q blas (w : @tweight R) p (x y : Rvec) : vsub x y <> [] ->
-  t_dist q blas w p x y = Ok (t_norm_v w p (vsub x y)).
-Proof. unfold t_dist. destruct (vsub x y) eqn:E; [congruence|]. intros _. rewrite t_dist_v_norm, E. reflexivity. Qed.
+Lemma t_dist_ok (w : @tweight R) p (x y : Rvec) : t_dist w p x y = Ok (t_norm_v w p (vsub x y)).
+Proof. unfold t_dist. rewrite t_dist_v_norm. reflexivity. Qed.
 
 Lemma vsub_swap (x y : Rvec) : vsub y x = vscal (-1) (vsub x y).
 Proof.
@@ -499,15 +498,11 @@ Lemma ti_positive (n : nat) (w : @tweight R) (x : Rvec) :
   tw_ok n w -> length x = n ->
   0 <= t_inner_v w x x /\ (t_inner_v w x x = 0 -> Forall (fun a => a = 0) x).
 Proof. intros Hw Hx. split; [apply (ti_nonneg n w Hw x Hx) | apply (ti_definite n w Hw x Hx)]. Qed.
-Lemma t_calls_total q blas (w : @tweight R) (p : expo) (x y : Rvec) :
-  x <> [] -> length x = length y ->
+Lemma t_calls_total (w : @tweight R) (p : expo) (x y : Rvec) :
   t_inner w (PFin 2) x y = Ok (t_inner_v w x y) /\
-  t_norm q blas w p x = Ok (t_norm_v w p x) /\
-  t_dist q blas w p x y = Ok (t_norm_v w p (vsub x y)).
-Proof.
-  intros Hne Hl. split; [reflexivity|]. split; [apply t_norm_ok; assumption|].
-  apply t_dist_ok. destruct x as [|a x]; [congruence|]. destruct y as [|b y]; [cbn in Hl; lia|]. cbn. congruence.
-Qed.
+  t_norm w p x = Ok (t_norm_v w p x) /\
+  t_dist w p x y = Ok (t_norm_v w p (vsub x y)).
+Proof. split; [reflexivity|]. split; [reflexivity | apply t_dist_ok]. Qed.
 Lemma ti_sym_pkg (n : nat) (w : @tweight R) (x y : Rvec) :
   tw_ok n w -> length x = n -> length y = n -> t_inner_v w x y = t_inner_v w y x.
 Proof. intros _. apply ti_sym. Qed.
